@@ -97,7 +97,7 @@ Record Inv (s : st) : Prop := mkInv {
   i_req_pre : req s = true -> prefix (pre_req s) (hist s);
   i_done : fp s = Done -> prefix (pre_req s) (written s);
   i_drain_req : fp s = Drain \/ fp s = Done -> req s = true;
-  i_fl_req : req s = true <-> (fl s = FRequested \/ exists b, fl s = FReturned b);
+  i_fl_req : req s = true <-> (fl s <> FNone /\ fl s <> FCalled);
   i_ret_done : fl s = FReturned true -> fp s = Done;
   i_retd : incl (retd s) (hist s);
   i_pc1 : fl s = FCalled -> incl (pre_call s) (hist s);
@@ -112,7 +112,7 @@ Lemma Inv_init : Inv init.
 Proof.
   constructor; cbn; intros; try discriminate; try contradiction; try reflexivity; try (intros ? []); try exact I.
   - destruct H as [H | H]; discriminate.
-  - split; [discriminate | intros [H | [b H]]; discriminate].
+  - split; [discriminate | intros [H _]; now contradiction H].
 Qed.
 
 Lemma take_inv s e p nx s' :
@@ -177,24 +177,27 @@ Proof.
     + intros g x. unfold upd. destruct (g =? eg e) eqn:E; [discriminate | apply H11].
     + intros g x. unfold upd. destruct (g =? eg e) eqn:E; [discriminate | apply H12].
   - (* FlushCall *)
-    destruct (fl s) eqn:F; try discriminate. inversion Hs; subst s'; clear Hs.
-    destruct I as [H1 H2 H3 H4 H5 H6 H7 H8 H9 H10 H11 H12 H13]. rewrite F in *. constructor; cbn; auto; try discriminate.
-    + rewrite H5. split; intros [X | [b X]]; discriminate.
-    + intros R. apply H5 in R. destruct R as [X | [b X]]; discriminate.
+    destruct I as [H1 H2 H3 H4 H5 H6 H7 H8 H9 H10 H11 H12 H13].
+    destruct (fl s) eqn:F; try discriminate; inversion Hs; subst s'; clear Hs; constructor; cbn; auto; try discriminate.
+    all: try (split; [intros R; apply H5 in R; destruct R; congruence | intros [? ?]; congruence]).
+    all: try (intros R; apply H5 in R; destruct R; congruence).
+    all: try (split; [intros _; split; discriminate | intros _; apply H5; split; discriminate]).
   - (* Request *)
-    destruct (fl s) eqn:F; try discriminate. inversion Hs; subst s'; clear Hs.
-    destruct I as [H1 H2 H3 H4 H5 H6 H7 H8 H9 H10 H11 H12 H13]. rewrite F in *.
-    assert (R : req s = false). { destruct (req s) eqn:R; [|reflexivity]. exfalso. destruct (proj1 H5 eq_refl) as [X | [b X]]; discriminate. }
-    constructor; cbn; auto; try discriminate.
-    + intros _. apply prefix_refl.
-    + intros D. assert (X : req s = true) by (apply H4; now right). congruence.
-    + split; [intros _; now left | reflexivity].
+    destruct I as [H1 H2 H3 H4 H5 H6 H7 H8 H9 H10 H11 H12 H13].
+    destruct (fl s) eqn:F; try discriminate; inversion Hs; subst s'; clear Hs.
+    + assert (R : req s = false). { destruct (req s) eqn:R; [|reflexivity]. exfalso. destruct (proj1 H5 eq_refl) as [_ X]. congruence. }
+      constructor; cbn; auto; try discriminate.
+      * intros _. apply prefix_refl.
+      * intros D. assert (X : req s = true) by (apply H4; now right). congruence.
+      * split; [intros _; split; discriminate | reflexivity].
+    + constructor; cbn; auto; try discriminate.
+      split; [intros _; split; discriminate | intros _; apply H5; split; discriminate].
   - (* FlushRet *)
-    destruct (fl s) eqn:F; try discriminate. destruct (negb done || _) eqn:C in Hs; [|discriminate].
-    inversion Hs; subst s'; clear Hs.
-    destruct I as [H1 H2 H3 H4 H5 H6 H7 H8 H9 H10 H11 H12 H13]. rewrite F in *. constructor; cbn; auto; try discriminate.
-    + rewrite H5. split; intros _; [right; now exists done | now left].
-    + intros X. inversion X; subst done. cbn in C. destruct (fp s); try discriminate. reflexivity.
+    destruct I as [H1 H2 H3 H4 H5 H6 H7 H8 H9 H10 H11 H12 H13].
+    destruct (fl s) eqn:F; try discriminate; (destruct (negb done || _) eqn:C in Hs; [|discriminate]);
+      inversion Hs; subst s'; clear Hs; constructor; cbn; auto; try discriminate.
+    all: try (split; [intros _; split; discriminate | intros _; apply H5; split; discriminate]).
+    intros X. inversion X; subst done. cbn in C. destruct (fp s); try discriminate. reflexivity.
   - (* PollTake *) eapply take_inv; eauto; intros; discriminate.
   - (* PollEmpty *)
     destruct (fp s) eqn:P; try discriminate. destruct (q s) eqn:Q; try discriminate. inversion Hs; subst s'; clear Hs.
@@ -336,25 +339,35 @@ Proof. intros H. destruct (run_ghost _ _ _ _ H) as (W & R & _). cbn in W, R. rew
 
 (* ---------- the property ---------- *)
 
-(* Completeness. FlushLogger is called after [l1]; it returns, woken by the flusher's acknowledgement, after [l2].
-   Every entry whose logging call returned during [l1] has been handed to its writer by then. *)
+Lemma step_fl_none cap s l s' : step cap s l = Some s' -> fl s = FNone -> l <> FlushCall -> fl s' = FNone.
+Proof. intros Hs F Ne. destruct l; unfold step, gstep, take in Hs; rewrite ?F in Hs; crush_step Hs; auto; congruence. Qed.
+Lemma run_fl_none cap ls : forall s s', run cap s ls = Some s' -> fl s = FNone -> ~ In FlushCall ls -> fl s' = FNone.
+Proof.
+  induction ls as [|l ls IH]; intros s s' Hr F N. { inversion Hr; subst; auto. }
+  rewrite run_cons in Hr. destruct (step cap s l) as [m|] eqn:E; [|discriminate].
+  apply (IH m); auto; [|intros X; apply N; now right]. eapply step_fl_none; eauto. intros ->. apply N. now left.
+Qed.
+
+(* Completeness. FlushLogger is called (for the first time) after [l1]; a call of it returns, woken by the flusher's
+   acknowledgement, after [l2]. Every entry whose logging call returned during [l1] has been handed to its writer by then. *)
 Theorem flush_complete cap l1 l2 l3 s :
-  run cap init (l1 ++ FlushCall :: l2 ++ FlushRet true :: l3) = Some s ->
+  run cap init (l1 ++ FlushCall :: l2 ++ FlushRet true :: l3) = Some s -> ~ In FlushCall l1 ->
   forall e, In e (rets_of l1) -> In e (writes_of (l1 ++ FlushCall :: l2)).
 Proof.
-  intros H e He.
+  intros H NF e He.
   destruct (run_split _ _ _ _ _ _ H) as (s1 & s1' & R1 & S1 & H').
   destruct (run_split _ _ _ _ _ _ H') as (s2 & s3 & R2 & S2 & _).
   assert (R12 : run cap init (l1 ++ FlushCall :: l2) = Some s2).
   { rewrite run_app, R1, run_cons, S1. exact R2. }
   destruct (run_init_ghost _ _ _ R1) as [_ Rd]. destruct (run_init_ghost _ _ _ R12) as [Wr _].
+  pose proof (run_fl_none _ _ _ _ R1 eq_refl NF) as F0.
   assert (PC : pre_call s1' = retd s1 /\ fl s1' <> FNone).
-  { unfold step, gstep in S1. destruct (fl s1); try discriminate. inversion S1; subst; cbn. split; [reflexivity | discriminate]. }
+  { unfold step, gstep in S1. rewrite F0 in S1. inversion S1; subst; cbn. split; [reflexivity | discriminate]. }
   destruct PC as [PC F1]. destruct (run_pre_call _ _ _ _ R2 F1) as [PC2 _].
-  assert (X : fl s2 = FRequested /\ fp s2 = Done).
-  { unfold step, gstep in S2. destruct (fl s2); try discriminate. cbn in S2. destruct (fp s2); try discriminate. auto. }
+  assert (X : (fl s2 = FRequested \/ fl s2 = FLRequested) /\ fp s2 = Done).
+  { unfold step, gstep in S2. destruct (fl s2); try discriminate; cbn in S2; destruct (fp s2); try discriminate; auto. }
   destruct X as [F2 D2]. pose proof (reach_inv _ _ _ R12) as I.
-  assert (Rq : req s2 = true) by (apply (i_fl_req _ I); now left).
+  assert (Rq : req s2 = true) by (apply (i_fl_req _ I); destruct F2 as [F2 | F2]; rewrite F2; split; discriminate).
   rewrite <- Wr. apply (prefix_incl _ _ (i_done _ I D2)). apply (i_pc2 _ I Rq).
   rewrite PC2, PC, Rd. apply in_rev in He. exact He.
 Qed.
@@ -365,8 +378,8 @@ Theorem no_write_after_ack cap l1 l3 s :
 Proof.
   intros H. destruct (run_split _ _ _ _ _ _ H) as (s2 & s3 & R2 & S2 & R3).
   assert (D : fp s3 = Done).
-  { unfold step, gstep in S2. destruct (fl s2); try discriminate. cbn in S2. destruct (fp s2) eqn:P; try discriminate.
-    inversion S2; subst; cbn. reflexivity. }
+  { unfold step, gstep in S2. destruct (fl s2); try discriminate; cbn in S2; destruct (fp s2) eqn:P; try discriminate;
+    inversion S2; subst; cbn; reflexivity. }
   apply (run_done _ _ _ _ R3 D).
 Qed.
 
@@ -552,9 +565,9 @@ Record Sim (s : st) (a : ast) : Prop := mkSim {
            lookupE e (a_unw a) = Some c -> In (e1, r1) (a_ret a) -> c < r1;
   r_fl : match fl s, a_fl a with
          | FNone, ANone => True
-         | FCalled, ACalled f | FRequested, ACalled f =>
+         | (FCalled | FRequested | FLCalled | FLRequested), ACalled f
+         | (FReturned _ | FLReturned _), ARet f =>
              f < a_t a /\ forall x r, In (x, r) (a_ret a) -> r <= f -> In x (pre_call s)
-         | FReturned _, ARet => True
          | _, _ => False
          end;
   r_done : a_done a = true -> fp s = Done
@@ -719,33 +732,48 @@ Proof.
       { intros x r Hin. destruct (lookupE e (a_unw a)); [|now left]. apply in_app_or in Hin. destruct Hin as [Hin | [X | []]]; [now left|]. inversion X. now right. }
       destruct (fl s), (a_fl a); auto; destruct S7 as [Hf Hp]; (split; [lia|]); intros x r Hin Hle; apply Sub in Hin; (destruct Hin as [Hin | ->]; [eauto | lia]).
   - (* FlushCall *)
-    destruct (fl s) eqn:F; try discriminate. inversion Hs; subst s'; clear Hs.
-    destruct S as [S1 S2 S3 S4 S5 S6 S7 S8]. rewrite F in S7. unfold astep. destruct (a_fl a) eqn:AF; try contradiction.
-    eexists. split; [reflexivity|]. constructor; cbn; auto.
-    + intros x c Hin. pose proof (S4 _ _ Hin). lia.
-    + intros x r Hin. destruct (S5 _ _ Hin) as (A & B & C). repeat split; auto. lia.
-    + split; [lia|]. intros x r Hin _. apply (S5 _ _ Hin).
-  - (* Request *)
-    destruct (fl s) eqn:F; try discriminate. inversion Hs; subst s'; clear Hs.
-    destruct S as [S1 S2 S3 S4 S5 S6 S7 S8]. rewrite F in S7. constructor; cbn; auto.
-  - (* FlushRet *)
-    destruct (fl s) eqn:F; try discriminate. destruct (negb done || _) eqn:C in Hs; [|discriminate].
-    inversion Hs; subst s'; clear Hs.
-    destruct S as [S1 S2 S3 S4 S5 S6 S7 S8]. rewrite F in S7. unfold astep. destruct (a_fl a) as [|f|] eqn:AF; try contradiction.
-    destruct S7 as [Hf Hp].
+    destruct S as [S1 S2 S3 S4 S5 S6 S7 S8].
     assert (W : forall x c, In (x, c) (a_unw a) -> c < a_t a + 1) by (intros x c Hin; pose proof (S4 _ _ Hin); lia).
     assert (Rr : forall x r, In (x, r) (a_ret a) -> In x (q s) /\ In x (retd s) /\ r < a_t a + 1).
     { intros x r Hin. destruct (S5 _ _ Hin) as (A & B & C'). repeat split; auto. lia. }
-    destruct done.
+    destruct (fl s) eqn:F; try discriminate; inversion Hs; subst s'; clear Hs;
+      unfold astep; destruct (a_fl a) as [|f|f] eqn:AF; try contradiction;
+      (eexists; split; [reflexivity|]); constructor; cbn; auto.
+    + split; [lia|]. intros x r Hin _. apply (S5 _ _ Hin).
+    + destruct S7 as [Hf Hp]. split; [lia | exact Hp].
+    + destruct S7 as [Hf Hp]. split; [lia | exact Hp].
+  - (* Request *)
+    destruct S as [S1 S2 S3 S4 S5 S6 S7 S8].
+    destruct (fl s) eqn:F; try discriminate; inversion Hs; subst s'; clear Hs; constructor; cbn; auto.
+  - (* FlushRet *)
+    destruct S as [S1 S2 S3 S4 S5 S6 S7 S8].
+    assert (W : forall x c, In (x, c) (a_unw a) -> c < a_t a + 1) by (intros x c Hin; pose proof (S4 _ _ Hin); lia).
+    assert (Rr : forall x r, In (x, r) (a_ret a) -> In x (q s) /\ In x (retd s) /\ r < a_t a + 1).
+    { intros x r Hin. destruct (S5 _ _ Hin) as (A & B & C'). repeat split; auto. lia. }
+    assert (FR : fl s = FRequested \/ fl s = FLRequested) by (destruct (fl s); try discriminate; auto).
+    assert (Rq : req s = true) by (apply (i_fl_req _ I); destruct FR as [FR | FR]; rewrite FR; split; discriminate).
+    assert (AF : exists f, a_fl a = ACalled f /\ f < a_t a /\ forall x r, In (x, r) (a_ret a) -> r <= f -> In x (pre_call s)).
+    { destruct FR as [FR | FR]; rewrite FR in S7; destruct (a_fl a) as [|f|f]; try contradiction; exists f; destruct S7; auto. }
+    destruct AF as (f & AF & Hf & Hp).
+    assert (Hs' : (negb done || match fp s with Done => true | _ => false end) = true /\
+                  exists nfl, (nfl = FReturned done \/ nfl = FLReturned done) /\
+                  s' = mk (q s) (fp s) (req s) nfl (lp s) (cnt s) (hist s) (written s) (retd s) (pre_call s) (pre_req s)).
+    { destruct FR as [FR | FR]; rewrite FR in Hs; destruct (negb done || _) eqn:C in Hs; try discriminate;
+        inversion Hs; subst s'; (split; [exact C|]).
+      - exists (FReturned done). split; [now left | reflexivity].
+      - exists (FLReturned done). split; [now right | reflexivity]. }
+    destruct Hs' as (C & nfl & Hn & ->). clear Hs.
+    unfold astep. rewrite AF. destruct done.
     + cbn in C. destruct (fp s) eqn:P; try discriminate.
       assert (FB : forallb (fun p0 => f <? snd p0) (a_ret a) = true).
       { apply forallb_forall. intros [x r] Hin. cbn. apply N.ltb_lt. destruct (N.lt_ge_cases f r) as [Hlt | Hge]; [exact Hlt|]. exfalso.
         pose proof (Hp _ _ Hin Hge) as PC. destruct (S5 _ _ Hin) as (Hq & _ & _).
-        assert (Rq : req s = true) by (apply (i_fl_req _ I); now left).
         pose proof (prefix_incl _ _ (i_done _ I P) _ (i_pc2 _ I Rq _ PC)) as Hw.
         pose proof (hist_NoDup _ I) as N. rewrite (i_hist _ I) in N. eapply NoDup_app_disjoint; eauto. }
       rewrite FB. eexists. split; [reflexivity|]. constructor; cbn; auto.
+      destruct Hn as [-> | ->]; (split; [lia | exact Hp]).
     + eexists. split; [reflexivity|]. constructor; cbn; auto.
+      destruct Hn as [-> | ->]; (split; [lia | exact Hp]).
   - (* PollTake *) eapply sim_take; eauto.
   - (* PollEmpty *)
     destruct (fp s) eqn:P; try discriminate. destruct (q s) eqn:Q; try discriminate. inversion Hs; subst s'; clear Hs.
@@ -921,7 +949,7 @@ Proof.
   assert (E : q s = [] -> pending s = 0%nat).
   { intros Q. unfold pending. pose proof (i_req_pre _ I R) as P. rewrite (i_hist _ I), Q, app_nil_r in P.
     apply prefix_length in P. lia. }
-  assert (F : fl s <> FCalled). { intros X. apply (i_fl_req _ I) in R. rewrite X in R. destruct R as [Y | [b Y]]; discriminate. }
+  assert (F : fl s <> FCalled) by (apply (i_fl_req _ I); exact R).
   destruct l; unfold step, gstep, take in Hs; unfold weight in *; destruct (fp s) eqn:P; cbn in Hs.
   all: repeat match type of Hs with
        | context [match ?x with _ => _ end] => destruct x eqn:?; try discriminate
@@ -950,14 +978,15 @@ Qed.
    entry whose call had returned to its writer — however many entries other goroutines log meanwhile. (Whether that
    fits into FlushLogger's one second depends on the scheduler and on the writers: not modelled.) *)
 Theorem flush_bounded cap l1 l2 s1 s2 s :
-  run cap init l1 = Some s1 -> step cap s1 Request = Some s2 -> run cap s2 l2 = Some s ->
+  run cap init l1 = Some s1 -> req s1 = false -> step cap s1 Request = Some s2 -> run cap s2 l2 = Some s ->
   (length (q s1) + 1 <= flusher_steps l2)%nat ->
   forall e, In e (rets_of l1) -> In e (writes_of (l1 ++ Request :: l2)).
 Proof.
-  intros R1 S2 R2 L e He.
+  intros R1 NR S2 R2 L e He.
   pose proof (reach_inv _ _ _ R1) as I1. pose proof (Inv_step _ _ _ _ I1 S2) as I2.
   assert (X : req s2 = true /\ pre_req s2 = hist s1 /\ written s2 = written s1 /\ fp s2 = fp s1 /\ q s2 = q s1).
-  { unfold step, gstep in S2. destruct (fl s1); try discriminate. inversion S2; subst; cbn. repeat split. }
+  { unfold step, gstep in S2. destruct (fl s1) eqn:F; try discriminate; inversion S2; subst; cbn; [repeat split|].
+    exfalso. assert (X : req s1 = true) by (apply (i_fl_req _ I1); rewrite F; split; discriminate). congruence. }
   destruct X as (Rq & Pr & Wr & Fp & Qq).
   destruct (run_weight _ _ _ _ I2 Rq R2) as (P & W).
   assert (W2 : (weight s2 <= length (q s1) + 1)%nat).
@@ -977,7 +1006,7 @@ Proof.
 Qed.
 
 Example flush_bounded_instance :
-  exists s1 s2 s, run 4 init (firstn 12 sched_fixed) = Some s1 /\ step 4 s1 Request = Some s2 /\
+  exists s1 s2 s, run 4 init (firstn 12 sched_fixed) = Some s1 /\ req s1 = false /\ step 4 s1 Request = Some s2 /\
     run 4 s2 (skipn 13 sched_fixed) = Some s /\ length (q s1) = 2%nat /\ flusher_steps (skipn 13 sched_fixed) = 4%nat.
 Proof. do 3 eexists. vm_compute. repeat split. Qed.
 
@@ -1013,8 +1042,7 @@ Record AInv (p : list event) (a : ast) : Prop := mkAInv {
   v_fly : forall e, In e (a_fly a) -> In (EWrite e) p \/ lookupE e (a_unw a) <> None;
   v_fl : match a_fl a with
          | ANone => ~ In EFlushCall p
-         | ACalled f => exists p1 p2, p = p1 ++ EFlushCall :: p2 /\ f = N.of_nat (length p1) /\ ~ In EFlushCall p1 /\ ~ In EFlushCall p2
-         | ARet => True
+         | ACalled f | ARet f => exists p1 p2, p = p1 ++ EFlushCall :: p2 /\ f = N.of_nat (length p1) /\ ~ In EFlushCall p1
          end;
   v_unw_nw : forall e, lookupE e (a_unw a) <> None -> ~ In (EWrite e) p;
   v_called : forall e, In (ECall e) p -> en e < lookupN (eg e) (a_next a);
@@ -1052,24 +1080,17 @@ Proof.
   destruct (Sub _ _ W) as [S | S]; [now right | left; apply in_snoc; now right].
 Qed.
 
-Lemma fl_ext (p : list event) ev (f : afl) :
-  ev <> EFlushCall ->
+Definition fl_fact (p : list event) (f : afl) : Prop :=
   match f with
   | ANone => ~ In EFlushCall p
-  | ACalled f => exists p1 p2, p = p1 ++ EFlushCall :: p2 /\ f = N.of_nat (length p1) /\ ~ In EFlushCall p1 /\ ~ In EFlushCall p2
-  | ARet => True
-  end ->
-  match f with
-  | ANone => ~ In EFlushCall (p ++ [ev])
-  | ACalled f => exists p1 p2, p ++ [ev] = p1 ++ EFlushCall :: p2 /\ f = N.of_nat (length p1) /\ ~ In EFlushCall p1 /\ ~ In EFlushCall p2
-  | ARet => True
+  | ACalled f | ARet f => exists p1 p2, p = p1 ++ EFlushCall :: p2 /\ f = N.of_nat (length p1) /\ ~ In EFlushCall p1
   end.
+Lemma fl_ext (p : list event) ev (f : afl) : ev <> EFlushCall \/ f <> ANone -> fl_fact p f -> fl_fact (p ++ [ev]) f.
 Proof.
-  intros Ne. destruct f; auto.
-  - intros H X. apply in_snoc in X. destruct X as [X | X]; [auto | congruence].
-  - intros (p1 & p2 & -> & -> & N1 & N2). exists p1, (p2 ++ [ev]). repeat split; auto.
-    + rewrite <- app_assoc. reflexivity.
-    + intros X. apply in_snoc in X. destruct X as [X | X]; [auto | congruence].
+  intros Ne. destruct f; cbn.
+  - intros H X. apply in_snoc in X. destruct X as [X | X]; [auto | destruct Ne; congruence].
+  - intros (p1 & p2 & -> & -> & N1). exists p1, (p2 ++ [ev]). repeat split; auto. rewrite <- app_assoc. reflexivity.
+  - intros (p1 & p2 & -> & -> & N1). exists p1, (p2 ++ [ev]). repeat split; auto. rewrite <- app_assoc. reflexivity.
 Qed.
 
 Lemma AInv_step p a ev a' : AInv p a -> astep a ev = Some a' -> AInv (p ++ [ev]) a'.
@@ -1087,7 +1108,7 @@ Proof.
       * right. rewrite lookupE_app. destruct (lookupE e (a_unw a)); [discriminate | rewrite entry_eqb_refl; discriminate].
       * destruct (V3 _ Hin) as [W | W]; [left; apply in_snoc; now left | right].
         rewrite lookupE_app. destruct (lookupE x (a_unw a)); [discriminate | contradiction].
-    + apply fl_ext; [discriminate | exact V4].
+    + apply (fl_ext p _ (a_fl a)); [left; discriminate | exact V4].
     + intros x L X. apply in_snoc in X. destruct X as [X | X]; [|discriminate]. rewrite lookupE_app in L.
       destruct (lookupE x (a_unw a)) eqn:LX.
       * apply (V5 x); [rewrite LX; discriminate | exact X].
@@ -1112,7 +1133,7 @@ Proof.
       * destruct (V2 _ _ _ E) as [W | W]; [left; apply in_snoc; now left | right].
         destruct (lookupE e (a_unw a)); [apply in_snoc; now left | exact W].
     + intros x Hin. apply filter_In in Hin. destruct Hin as [Hin _]. destruct (V3 _ Hin) as [W | W]; [left; apply in_snoc; now left | now right].
-    + apply fl_ext; [discriminate | exact V4].
+    + apply (fl_ext p _ (a_fl a)); [left; discriminate | exact V4].
     + intros x L X. apply in_snoc in X. destruct X as [X | X]; [|discriminate]. eapply V5; eauto.
     + intros x X. apply in_snoc in X. destruct X as [X | X]; [auto | discriminate].
     + intros x X. apply in_snoc in X. destruct X as [X | X]; [|discriminate]. apply in_snoc. left. auto.
@@ -1128,7 +1149,7 @@ Proof.
     + intros x Hin. destruct (entry_eqb e x) eqn:E.
       * apply entry_eqb_eq in E. subst. left. apply in_snoc. now right.
       * destruct (V3 _ Hin) as [W | W]; [left; apply in_snoc; now left | right]. rewrite lookupE_removeE, E. exact W.
-    + apply fl_ext; [discriminate | exact V4].
+    + apply (fl_ext p _ (a_fl a)); [left; discriminate | exact V4].
     + intros x L X. rewrite lookupE_removeE in L. destruct (entry_eqb e x) eqn:E; [contradiction|].
       apply in_snoc in X. destruct X as [X | X]; [eapply V5; eauto|]. inversion X; subst. rewrite entry_eqb_refl in E. discriminate.
     + intros x X. apply in_snoc in X. destruct X as [X | X]; [auto | discriminate].
@@ -1138,22 +1159,28 @@ Proof.
       apply (stamp_ext p (EWrite e) (fun y => lookupE y (a_unw a))); auto.
     + intros x Hin. apply in_snoc. left. auto.
   - (* EFlushCall *)
-    destruct (a_fl a) eqn:F; try discriminate. inversion Hs; subst a'; clear Hs.
-    constructor; cbn; auto.
+    assert (X : a_t a' = a_t a + 1 /\ a_fly a' = a_fly a /\ a_next a' = a_next a /\ a_unw a' = a_unw a /\ a_ret a' = a_ret a /\
+                fl_fact (p ++ [EFlushCall]) (a_fl a')).
+    { destruct (a_fl a) as [|f|f] eqn:F; try discriminate; inversion Hs; subst; cbn [a_t a_fly a_next a_unw a_ret a_fl]; repeat split.
+      - exists p, []. repeat split; auto.
+      - apply (fl_ext p EFlushCall (ACalled f)); [right; discriminate | exact V4]. }
+    destruct X as (X1 & X2 & X3 & X4 & X5 & X6). clear Hs.
+    constructor; rewrite ?X1, ?X2, ?X3, ?X4, ?X5; auto.
     + eapply ret_ext; eauto; discriminate.
     + intros x Hin. destruct (V3 _ Hin) as [W | W]; [left; apply in_snoc; now left | now right].
-    + exists p, []. repeat split; auto.
     + intros x L X. apply in_snoc in X. destruct X as [X | X]; [eapply V5; eauto | discriminate].
     + intros x X. apply in_snoc in X. destruct X as [X | X]; [auto | discriminate].
     + intros x X. apply in_snoc in X. destruct X as [X | X]; [|discriminate]. apply in_snoc. left. auto.
     + apply (stamp_ext p EFlushCall (fun y => lookupE y (a_unw a))); auto.
     + intros x Hin. apply in_snoc. left. auto.
   - (* EFlushRet *)
-    destruct (a_fl a) eqn:F; try discriminate.
-    assert (X : a_t a' = a_t a + 1 /\ a_fly a' = a_fly a /\ a_next a' = a_next a /\ a_unw a' = a_unw a /\ a_ret a' = a_ret a /\ a_fl a' = ARet).
-    { destruct b; [destruct (forallb _ _); [|discriminate]|]; inversion Hs; subst; cbn; repeat split. }
+    assert (X : a_t a' = a_t a + 1 /\ a_fly a' = a_fly a /\ a_next a' = a_next a /\ a_unw a' = a_unw a /\ a_ret a' = a_ret a /\
+                fl_fact (p ++ [EFlushRet b]) (a_fl a')).
+    { destruct (a_fl a) as [|f|f] eqn:F; try discriminate.
+      assert (FF : fl_fact (p ++ [EFlushRet b]) (ARet f)) by (apply (fl_ext p _ (ACalled f)); [left; discriminate | exact V4]).
+      destruct b; [destruct (forallb _ _); [|discriminate]|]; inversion Hs; subst; cbn [a_t a_fly a_next a_unw a_ret a_fl]; repeat split; exact FF. }
     destruct X as (X1 & X2 & X3 & X4 & X5 & X6). clear Hs.
-    constructor; rewrite ?X1, ?X2, ?X3, ?X4, ?X5, ?X6; auto.
+    constructor; rewrite ?X1, ?X2, ?X3, ?X4, ?X5; auto.
     + eapply ret_ext; eauto; discriminate.
     + intros x Hin. destruct (V3 _ Hin) as [W | W]; [left; apply in_snoc; now left | now right].
     + intros x L X. apply in_snoc in X. destruct X as [X | X]; [eapply V5; eauto | discriminate].
@@ -1209,10 +1236,10 @@ Qed.
 
 (* an accepted trace satisfies the property: completeness at the acknowledged return ... *)
 Theorem accepts_complete t1 t2 t3 :
-  accepts (t1 ++ EFlushCall :: t2 ++ EFlushRet true :: t3) = true ->
+  accepts (t1 ++ EFlushCall :: t2 ++ EFlushRet true :: t3) = true -> ~ In EFlushCall t1 ->
   forall e, In (ERet e) t1 -> In (EWrite e) (t1 ++ EFlushCall :: t2).
 Proof.
-  intros H e He.
+  intros H NF e He.
   replace (t1 ++ EFlushCall :: t2 ++ EFlushRet true :: t3) with ((t1 ++ EFlushCall :: t2) ++ EFlushRet true :: t3) in H
     by (rewrite <- app_assoc; reflexivity).
   destruct (accepts_at _ _ _ H) as (a & a' & V & _ & S).
@@ -1220,8 +1247,8 @@ Proof.
   destruct (v_ret _ _ V u e (v ++ EFlushCall :: t2)) as [W | W]; [rewrite <- app_assoc; reflexivity | exact W |].
   exfalso. unfold astep in S. pose proof (v_fl _ _ V) as F. destruct (a_fl a) as [|f|]; try discriminate.
   destruct (forallb _ _) eqn:FB in S; [|discriminate]. rewrite forallb_forall in FB. specialize (FB _ W). cbn in FB.
-  apply N.ltb_lt in FB. destruct F as (p1 & p2 & E & -> & N1 & N2).
-  apply unique_split in E; auto. subst p1. rewrite app_length in FB. cbn in FB. lia.
+  apply N.ltb_lt in FB. destruct F as (p1 & p2 & E & -> & N1).
+  apply unique_split2 in E; auto. subst p1. rewrite app_length in FB. cbn in FB. lia.
 Qed.
 
 (* ... exactly once, and only what was submitted ... *)
@@ -1262,4 +1289,38 @@ Qed.
 
 Example accepts_complete_instance :
   accepts ([ECall e00; ERet e00] ++ EFlushCall :: [EWrite e00] ++ EFlushRet true :: []) = true.
+Proof. vm_compute. reflexivity. Qed.
+
+(* ---------- a later FlushLogger call: the full-strength statement without "first call" is false of the code ---------- *)
+
+Definition flush_complete_any_call_statement : Prop := forall cap l1 l2 l3 s,
+  run cap init (l1 ++ FlushCall :: l2 ++ FlushRet true :: l3) = Some s ->
+  forall e, In e (rets_of l1) -> In e (writes_of (l1 ++ FlushCall :: l2)).
+
+Definition sched_second : list label :=
+  [LogCall e00; Enq 0; LogRet e00; FlushCall; Request; PollTake e00; PollEmpty; InnerSync; DrainDone; FlushRet true;
+   LogCall e01; Enq 0; LogRet e01].
+
+Theorem second_flush_refuted :
+  exists cap l1 l2 l3 e s,
+    run cap init (l1 ++ FlushCall :: l2 ++ FlushRet true :: l3) = Some s /\ In e (rets_of l1) /\
+    ~ In e (writes_of (l1 ++ FlushCall :: l2 ++ FlushRet true :: l3)) /\ q s = [e] /\ fl s = FLReturned true.
+Proof.
+  exists 4, sched_second, [Request], [], e01. eexists.
+  split; [vm_compute; reflexivity|]. split; [vm_compute; auto|]. split; [|split; reflexivity].
+  vm_compute. intros [H | []]. discriminate.
+Qed.
+
+Corollary flush_complete_any_call_refuted : ~ flush_complete_any_call_statement.
+Proof.
+  intros H. destruct second_flush_refuted as (cap & l1 & l2 & l3 & e & s & R & He & Nw & _).
+  apply Nw. specialize (H _ _ _ _ _ R e He).
+  rewrite writes_of_app in *. cbn [writes_of] in *. apply in_app_or in H. apply in_or_app.
+  destruct H as [H | H]; [now left | right]. rewrite writes_of_app. apply in_or_app. now left.
+Qed.
+
+(* the specification machine follows the model here too: the trace of that schedule is accepted (it is a behaviour of
+   the code), and it is the direct monitor that reports it (known finding) *)
+Example second_flush_trace_accepted :
+  accepts (visible (sched_second ++ [FlushCall; Request; FlushRet true])) = true.
 Proof. vm_compute. reflexivity. Qed.
